@@ -227,14 +227,23 @@ func ZooRoots() []ZooRoot {
 
 // ---- reflection-derived description for the Coq model ----
 
+type ZMeth struct {
+	NIn     int  `json:"nin"`     // parameters without the receiver (the context included)
+	Via     int  `json:"via"`     // index of the embedded field the method is promoted through, -1 = declared on this type
+	PtrRecv bool `json:"ptrrecv"` // declared with a pointer receiver (only meaningful when Via = -1)
+}
+
 type ZType struct {
-	ID      int              `json:"id"`
-	Name    string           `json:"name"`
-	Kind    string           `json:"kind"` // struct ptr iface other
-	Elem    int              `json:"elem"` // ptr: pointee type
-	Fields  []ZField         `json:"fields,omitempty"`
-	ByName  map[string][]int `json:"byname,omitempty"` // FieldByName index paths (promoted included)
-	Methods map[string]int   `json:"methods,omitempty"` // method set of this type: name -> NumIn (without receiver)
+	ID     int              `json:"id"`
+	Name   string           `json:"name"`
+	Short  string           `json:"short"`
+	Kind   string           `json:"kind"` // struct ptr iface other
+	Elem   int              `json:"elem"` // ptr: pointee type
+	Fields []ZField         `json:"fields,omitempty"`
+	ByName map[string][]int `json:"byname,omitempty"` // FieldByName index paths (promoted included)
+	VM     []string         `json:"vm,omitempty"`     // method set of T (names)
+	PM     map[string]ZMeth `json:"pm,omitempty"`     // method set of *T (T not a pointer / interface)
+	IM     map[string]int   `json:"im,omitempty"`     // interface methods: name -> NumIn
 }
 
 type ZField struct {
@@ -270,14 +279,38 @@ func (b *zbuilder) typ(t reflect.Type) int {
 	id := len(b.types)
 	b.ids[t] = id
 	b.types = append(b.types, ZType{ID: id, Name: t.String()})
-	zt := ZType{ID: id, Name: t.String(), Methods: map[string]int{}}
-	for i := 0; i < t.NumMethod(); i++ {
-		m := t.Method(i)
-		n := m.Type.NumIn()
-		if t.Kind() != reflect.Interface {
-			n-- // receiver
+	zt := ZType{ID: id, Name: t.String(), Short: t.Name(), PM: map[string]ZMeth{}, IM: map[string]int{}}
+	if t.Kind() == reflect.Interface {
+		for i := 0; i < t.NumMethod(); i++ {
+			zt.IM[t.Method(i).Name] = t.Method(i).Type.NumIn()
 		}
-		zt.Methods[m.Name] = n
+	} else if t.Kind() != reflect.Ptr {
+		for i := 0; i < t.NumMethod(); i++ {
+			zt.VM = append(zt.VM, t.Method(i).Name)
+		}
+		pt := reflect.PointerTo(t)
+		for i := 0; i < pt.NumMethod(); i++ {
+			m := pt.Method(i)
+			_, inV := t.MethodByName(m.Name)
+			via := -1
+			if t.Kind() == reflect.Struct {
+				for fi := 0; fi < t.NumField(); fi++ {
+					f := t.Field(fi)
+					if !f.Anonymous {
+						continue
+					}
+					ft := f.Type
+					if ft.Kind() != reflect.Ptr {
+						ft = reflect.PointerTo(ft)
+					}
+					if _, ok := ft.MethodByName(m.Name); ok {
+						via = fi
+						break
+					}
+				}
+			}
+			zt.PM[m.Name] = ZMeth{NIn: m.Type.NumIn() - 1, Via: via, PtrRecv: !inV}
+		}
 	}
 	switch t.Kind() {
 	case reflect.Struct:
@@ -328,11 +361,9 @@ func (b *zbuilder) typ(t reflect.Type) int {
 func instOf(v reflect.Value) string {
 	if v.Kind() == reflect.Struct {
 		for _, n := range []string{"ID", "RID", "EID", "PID"} {
-			if f := v.FieldByName(n); f.IsValid() && f.Kind() == reflect.String {
-				// only a direct field counts
-				if sf, _ := v.Type().FieldByName(n); len(sf.Index) == 1 {
-					return f.String()
-				}
+			// only a direct field counts
+			if sf, ok := v.Type().FieldByName(n); ok && len(sf.Index) == 1 && sf.Type.Kind() == reflect.String {
+				return v.Field(sf.Index[0]).String()
 			}
 		}
 		if v.Type().Name() == "Deep3" {
@@ -398,7 +429,10 @@ func (d ZDesc) AllNames() []string {
 		for n := range t.ByName {
 			set[n] = true
 		}
-		for m := range t.Methods {
+		for m := range t.PM {
+			set[m] = true
+		}
+		for m := range t.IM {
 			set[m] = true
 		}
 	}
